@@ -60,7 +60,10 @@ def cases(draw, max_puts=8):
             # instant reaches the output block before its own regular initialisation
             'slow_init': draw(st.integers(0, 3)) == 0,
             # the stop is requested a second time while the clean-up is in progress (no effect expected)
-            'second_stop': draw(st.sampled_from([None, None, 0.0, 0.5, 1.5]))}
+            'second_stop': draw(st.sampled_from([None, None, 0.0, 0.5, 1.5])),
+            # another block whose asynchronous clean-up hangs until its own stop_timeout (3 s) expires;
+            # the time-outs of the blocks run concurrently, not one after the other
+            'slow_other': draw(st.integers(0, 2)) == 0}
 
 
 def strategy(tier):
@@ -143,6 +146,14 @@ def execute(case):
             'oa', coro=coro, mode=case['mode'], stop_timeout=case['stop_timeout'],
             on_success=edzed.Event(resrec, 'success'), on_error=edzed.Event('res', 'error'),
             on_cancel=edzed.Event(resrec, 'cancel'), on_output=edzed.Event('out', 'o'), **kwargs)
+        if case.get('slow_other'):
+            class Hanging(edzed.AddonAsync, edzed.SBlock):
+                def init_regular(self):
+                    self.set_output(0)
+
+                async def stop_async(self):
+                    await asyncio.sleep(1000)
+            Hanging('hanging', stop_timeout=3)
         if case.get('slow_init'):
             async def slow():
                 await asyncio.sleep(5)
@@ -308,6 +319,19 @@ def execute(case):
             res.fail('C12.output_not_zero', f"output {info['final_output']} after the end (tight stop_timeout)")
         if info['late']:
             res.fail('C12.activity_after_stop', f"{info['late'][:3]}")
+        # The stop tasks of all blocks are awaited one after another, longest stop_timeout first, each
+        # with what is left of its own limit: the clean-up as a whole is bounded by the largest
+        # stop_timeout counted from the stop request (not by their sum). A guard time is exempt: it
+        # is protected from cancellation and may outlast the limit.
+        bound = max(case['stop_timeout'], 3.0 if case.get('slow_other') else 0.0)
+        if not guard:
+            last = max([e[0] for e in log if e[1] in ('start', 'end', 'fail', 'cancelled', 'res')] or [t_stop])
+            if last > t_stop + bound + 1e-6:
+                res.fail('C12.cleanup_exceeds_stop_timeout', f"activity at {last}, stop requested at {t_stop}, "
+                         f"largest stop_timeout {bound}")
+            elif t_stopped - t_stop > bound + 1e-6:
+                res.fail('C12.cleanup_exceeds_stop_timeout', f"clean-up took {t_stopped - t_stop} s, largest "
+                         f"stop_timeout {bound}")
     if not case['stop_data'] and 'STOP' in started:
         res.fail('C12.invented_stop_data', "a stop_data run without stop_data")
 
@@ -346,6 +370,8 @@ def execute(case):
         res.classes.append('stopped during start-up')
     if case.get('second_stop') is not None:
         res.classes.append('second stop request during clean-up')
+    if case.get('slow_other'):
+        res.classes.append('another block with a hanging asynchronous clean-up')
     if guard:
         res.classes.append('guard_time')
     if case['stop_data']:
